@@ -178,6 +178,10 @@ class FlatColumn:
             else:
                 raise ColumnDefinitionError(attribute)
 
+        # map literals to ColumnDisposition
+        if self.disposition is not None and not isinstance(self.disposition, ColumnDisposition):
+            self.disposition = ColumnDisposition(self.disposition)
+
         # map literals to OrsoTypes
         if self.type.__class__ is not OrsoTypes:
             self.type, _length, _precision, _scale, _element_type = OrsoTypes.from_name(self.type)
